@@ -42,18 +42,21 @@ func init() {
 }
 
 func (p *c08) Rule() string {
-	return "case = one generated scenario biased to what depends on map order (>=2 translation languages, >=2 webhook headers, several issue types per node, many fields/groups/results, JSON objects with case-variant keys) + pure calls on its flows (Inspect JSON, MigrateToLatest of the flow stored at 13.0, Clone with a fixed dependency mapping and seeded UUID source, ContactQuery.String, template results on the final context). Each case runs 8x in one process from identical sources (in-process clause) and its output digest is compared across 3 passes of fresh processes: ascending order, descending order, one process per case (cross-process + order-independence clauses). Non-trivial = the case has >= 1 site with >= 2 map keys (counted by the generator); distinct = SHA of the scenario."
+	return "case = one generated scenario biased to what depends on map order (>=2 translation languages, >=2 webhook headers, several issue types per node, many fields/groups/results, JSON objects with case-variant keys) + pure calls on its flows (Inspect JSON, MigrateToLatest of the flow stored at 13.0, Clone with a fixed dependency mapping and seeded UUID source, ContactQuery.String, template results on the final context). Each case runs 8x in one process from identical sources (in-process clause) and its output digest is compared across 3 passes of fresh processes: ascending order, descending order, one process per case (cross-process + order-independence clauses). Added classes (c08_widen.go): objects of 2-40 properties with keys differing only by case looked up by inexact names (trigger params, parse_json), flows with up to ~40 issues and several of one type on one node, fixed recipient lists of length 0-9 followed by the session's own contact/URN; and one more history: the last execution's events/segments/session are serialised again after a session for another contact ran over the same kept assets (late-serialisation clause). Non-trivial = the case has >= 1 site with >= 2 map keys (counted by the generator); distinct = SHA of the scenario."
 }
 
 func (p *c08) Directed() []string {
 	return []string{"two-languages-different-refs", "two-webhook-headers", "many-issues-one-node", "case-variant-json-keys", "clone-with-ui-and-localization", "custom-number-format-then-default", "many-results-fields-groups", "number-format-comma-space", "number-format-comma-dot", "number-format-dot-space", "number-format-dot-comma",
 		// a session that recreates @webhook from a result's extra after being re-read (the recreated value is marked
 		// deprecated), for every kind of bare JSON body, each followed by a session that reads the same kinds of JSON value
-		"reread-webhook-true", "json-value-readers-1", "reread-webhook-false", "json-value-readers-2", "reread-webhook-null", "json-value-readers-3", "reread-webhook-number", "reread-webhook-string", "reread-webhook-array", "reread-webhook-empty", "json-value-readers-4", "legacy-extra-created-on-ties", "reread-webhook-hugeexp", "reread-webhook-nested", "reread-webhook-badjson", "reread-webhook-unavailable", "ambiguous-location-names"}
+		"reread-webhook-true", "json-value-readers-1", "reread-webhook-false", "json-value-readers-2", "reread-webhook-null", "json-value-readers-3", "reread-webhook-number", "reread-webhook-string", "reread-webhook-array", "reread-webhook-empty", "json-value-readers-4", "legacy-extra-created-on-ties", "reread-webhook-hugeexp", "reread-webhook-nested", "reread-webhook-badjson", "reread-webhook-unavailable", "ambiguous-location-names",
+		// classes added in c08_widen.go
+		"objects-of-many-sizes-case-variant-keys", "many-issues-per-type-and-node", "own-recipients-after-fixed-lists", "own-recipients-after-fixed-lists-reread"}
 }
 
 func (p *c08) Floors(tier string) []string {
-	return []string{"clause.inprocess_repeat", "outputs.sprints", "outputs.inspect", "outputs.migrate", "outputs.migrate_legacy", "outputs.clone", "outputs.query", "outputs.templates", "sites.translation_languages", "sites.webhook_headers", "sites.case_variant_keys", "clause.canaries"}
+	return []string{"clause.inprocess_repeat", "outputs.sprints", "outputs.inspect", "outputs.migrate", "outputs.migrate_legacy", "outputs.clone", "outputs.query", "outputs.templates", "sites.translation_languages", "sites.webhook_headers", "sites.case_variant_keys", "clause.canaries",
+		"outputs.templates_case", "sites.case_variant_params", "seen.params_over_16_properties", "sites.many_issues", "seen.inspect_over_12_issues_with_ties", "sites.own_recipients", "clause.late_serialisation", "seen.late_serialisation.recipient_events"}
 }
 
 func (p *c08) directed(name string) *gen.Scenario {
@@ -171,7 +174,7 @@ func (p *c08) directed(name string) *gen.Scenario {
 		ct["fields"] = gen.M{"age": gen.M{"text": "23", "number": 23}, "gender": gen.M{"text": "male"}, "nick": gen.M{"text": "bobby"}, "joined": gen.M{"text": "2018-01-01T00:00:00Z", "datetime": "2018-01-01T00:00:00Z"}, "state": gen.M{"text": "Kigali", "state": "Rwanda > Kigali City"}}
 		return &gen.Scenario{Assets: d.BaseAssets(d.Flow("A", "messaging", d.Node("a1", acts, nil, d.Exit("a1x", "")))), Trigger: d.Manual("A", ct)}
 	}
-	return nil
+	return p.directedWide(name)
 }
 
 // mapSites counts the sites of a scenario that iterate a map with >= 2 keys.
@@ -206,6 +209,12 @@ func mapSites(scen *gen.Scenario) map[string]int {
 	if c, ok := scen.Trigger["contact"].(gen.M); ok {
 		if fs, ok := c["fields"].(gen.M); ok && len(fs) >= 2 {
 			n["contact_fields"]++
+		}
+	}
+	// the classes of c08_widen.go (noted by what planted them)
+	for _, note := range scen.Notes {
+		if strings.HasPrefix(note, "c08:") {
+			n[strings.ReplaceAll(strings.TrimPrefix(note, "c08:"), "-", "_")]++
 		}
 	}
 	return n
@@ -296,7 +305,19 @@ func (p *c08) outputsN(scen *gen.Scenario, seed int64, rot int, res *fw.Result, 
 			if err != nil {
 				return
 			}
-			add(fmt.Sprintf("inspect[%d]", i), fl.Inspect(rn.SA))
+			insp := fl.Inspect(rn.SA)
+			add(fmt.Sprintf("inspect[%d]", i), insp)
+			if count && len(insp.Issues) > 12 {
+				// more issues than a small-input sort handles, with several of one type on one node
+				ties := map[string]int{}
+				for _, is := range insp.Issues {
+					k := string(is.NodeUUID()) + "|" + is.Type()
+					if ties[k]++; ties[k] == 2 {
+						res.Count("seen.inspect_over_12_issues_with_ties", 1)
+						break
+					}
+				}
+			}
 			add(fmt.Sprintf("extract_templates[%d]", i), fl.ExtractTemplates())
 			add(fmt.Sprintf("extract_localizables[%d]", i), fl.ExtractLocalizables())
 			add(fmt.Sprintf("marshal[%d]", i), fl)
@@ -400,6 +421,26 @@ func (p *c08) outputsN(scen *gen.Scenario, seed int64, rot int, res *fw.Result, 
 				rn.Src.Restore(st)
 				add(fmt.Sprintf("templates[%d]", i), []any{v, errs})
 			}()
+		}
+		// templates built for the case: inexact lookups in objects of several sizes
+		for i, t := range c08CaseTemplates(seed, rot, scen) {
+			func() {
+				defer func() {
+					if r := recover(); r != nil {
+						add(fmt.Sprintf("templates_case[%d]", i), "panic: "+fmt.Sprint(r))
+					}
+				}()
+				st := rn.Src.Snapshot()
+				var errs []string
+				v, _ := run.EvaluateTemplate(t, func(e flows.Event) { errs = append(errs, eventText(e)) })
+				rn.Src.Restore(st)
+				add(fmt.Sprintf("templates_case[%d]", i), []any{v, errs})
+			}()
+		}
+	}
+	if count {
+		if params, ok := scen.Trigger["params"].(gen.M); ok && len(params) > 16 {
+			res.Count("seen.params_over_16_properties", 1)
 		}
 	}
 	return out, nil
@@ -595,6 +636,9 @@ func (p *c08) scenOf(c fw.Case) *gen.Scenario {
 			}
 		}
 	}
+	if c.Directed == "" {
+		c08Widen(fw.NewRand(c.Seed, "C08/widen", c.Index), scen)
+	}
 	if c.Directed == "" && c.Index%5 == 2 {
 		scen.Coarse = []int{4, 16, 1000}[c.Index/5%3] // a clock of limited resolution: neighbouring events / results carry the same time
 	}
@@ -642,6 +686,8 @@ func (p *c08) runScen(res fw.Result, scen *gen.Scenario, c fw.Case) fw.Result {
 				witnessOf(scen, map[string]any{"repetition": rep, "first": firstDiffPair(first, again)}))
 		}
 	}
+	// what the last execution produced, serialised again after a session for another contact over the same assets
+	p.lateSerialisation(scen, c, &res)
 	// canaries
 	res.Count("clause.canaries", 1)
 	after := globalsSnapshot()
